@@ -540,6 +540,44 @@ def live_extra(ctx, B):
     restore_registry(B)
 
 
+def live_outfilter_each(ctx, B):
+    """every command of the Filter plugin is offered to `outfilter` by a channel op; those it accepts run as live output filters
+    on texts that spell CR LF / NUL in binary, hex, morse, ... (decoders!) and on hostile text"""
+    rng = ctx.rng
+    seen = {}
+    # every command of the Filter plugin offered to `outfilter`: those it accepts are exercised as live output filters
+    fcb = filter_cb(B)
+    accepted = []
+    targeted = decoder_inputs()
+    for name in sorted(c for c in fcb.listCommands() if c != 'outfilter'):
+        heal(B)
+        restore_registry(B)
+        fcb.outFilters.clear()
+        install = {'caller': 'alice', 'where': 'chan', 'text': 'filter outfilter ' + name, 'conf': {}}
+        live_feed(B, install)
+        if not fcb.outFilters.get('#test'):
+            continue
+        accepted.append(name)
+        pool = (targeted[:13] + targeted[-7:] if ctx.scale == 1 else targeted) + rng.sample(HOSTILE, 3 if ctx.scale == 1 else 25)
+        for a in pool:
+            for text, cfg in ((('reply action ' + a, {}), ('utilities echo ' + a, {'prefixNick': False})) if (ctx.scale > 1 or pool.index(a) % 2 == 0)
+                              else (('reply action ' + a, {}),)):
+                inv = {'caller': 'bob', 'where': 'chan', 'text': text, 'conf': cfg}
+                ctx.case('live-outfilter-each', dict(inv, filter=name))
+                for m in live_feed(B, inv):
+                    for clause, detail in check_out(m):
+                        k = ('outfilter-each', name, clause)
+                        seen[k] = seen.get(k, 0) + 1
+                        if seen[k] <= 1:
+                            ctx.fail({'op': 'live', 'clause': clause, 'inv': inv, 'history': [install]},
+                                     '%s: (output filter %r installed by a channel op) %s' % (clause, name, detail))
+        fcb.outFilters.clear()
+    ctx.notes.append('outfilter accepted %d Filter commands as live output filters: %s' % (len(accepted), ' '.join(accepted)))
+    if sorted(accepted) != sorted(fcb._filterCommands):
+        ctx.notes.append('note: accepted set differs from Filter._filterCommands %r' % sorted(fcb._filterCommands))
+    restore_registry(B)
+
+
 def worker_main(argv):
     """python c06.py worker I N SEED SCALE BUDGET : explore shard I of N, print one JSON object"""
     i, n, seed, scale, budget = int(argv[0]), int(argv[1]), int(argv[2]), int(argv[3]), float(argv[4])
@@ -558,6 +596,8 @@ def worker_main(argv):
         w.notes.append('live bot: %d plugins loaded (%s not loadable), %d commands' % (len(B['loaded']), ', '.join(B['unloadable']) or 'none', len(commands(B))))
     if i == n - 1:
         live_extra(w, B)
+    if i == 0:
+        live_outfilter_each(w, B)
     sys.stdout.write('\nRESULT ' + json.dumps({'dist': dict(w.dist), 'hashes': sorted(w.hashes), 'samples': w.samples[:3], 'failures': w.failures,
                                                'notes': w.notes, 'stats': st, 'plugins': mine}) + '\n')
     sys.stdout.flush()
@@ -837,6 +877,102 @@ def gen_take(rng):
     return g
 
 
+SMUGGLE = ['x\r\nQUIT :pwned', 'a\0b', '\nPRIVMSG #other :hi', '\r']
+
+
+def decoder_inputs():
+    """one-line texts that SPELL CR LF / NUL in the encodings text filters may know how to decode"""
+    import base64, codecs, urllib.parse
+    morse = {'\r': '', '\n': ''}
+    out = []
+    for p in SMUGGLE:
+        b = p.encode()
+        bits = ''.join('{:08b}'.format(c) for c in b)
+        out += [bits, ' '.join(bits[i:i + 8] for i in range(0, len(bits), 8)), b.hex(), b.hex().upper(), ' '.join('%02x' % c for c in b),
+                '0x' + b.hex(), base64.b64encode(b).decode(), urllib.parse.quote(p), p.encode('unicode_escape').decode(),
+                ''.join('&#%d;' % c for c in b), ' '.join(str(c) for c in b), ' '.join('%03o' % c for c in b),
+                codecs.encode(p.encode('unicode_escape').decode(), 'rot13')]
+    out += ['-..- .-.-.- -.-. .-. .-.. ..-.', '.-.- .-.-', '....... ... --- ...', '00001101', '0d0a', '0D 0A', '00001010 00001101']
+    return [x for x in dict.fromkeys(out) if x and not any(c in x for c in '\r\n\0')]
+
+
+def filter_cb(B):
+    for cb in B['irc'].callbacks:
+        if cb.name() == 'Filter':
+            return cb
+    return None
+
+
+class _FProxy(object):
+    def reply(self, s):
+        self.s = s
+
+
+def filter_fn(B, name, text):
+    """what Filter.outFilter gets from one installed filter command: the text it replies with, or None when it raises
+    (outFilter is firewalled and then hands the message on unchanged)"""
+    cb = filter_cb(B)
+    msg = B['ircmsgs'].IrcMsg(':test!bot@bothost PRIVMSG #test :x')
+    B['irc']._setMsgChannel(msg)
+    px = _FProxy()
+    try:
+        getattr(cb, name)(px, msg, [text])
+        return px.s
+    except Exception:
+        return None
+
+
+def case_filter_fn(ctx, B, name, text, count=True):
+    inp = {'op': 'filterfn', 'filter': name, 's': text, 'clause': 'line'}
+    if count:
+        ctx.case('outfilter-fn', inp)
+    r = filter_fn(B, name, text)
+    if isinstance(r, str) and any(c in r for c in '\r\n\0'):
+        ctx.fail(inp, 'line: output filter %r (in Filter._filterCommands) turns the one-line text %r into %r; Filter.outFilter rebuilds the message '
+                      'through the unchecked msg= branch' % (name, text[:80], r[:80]))
+
+
+def gen_outfilter(rng):
+    g = gen_ctor(rng)
+    g['command'] = rng.choice(['PRIVMSG', 'PRIVMSG', 'NOTICE', 'MODE'])
+    t = rng.choice(['hello world', 'abc', 'a b  c', '\u00e9t\u00e9 \U0001f600', 'x' * 40, '0111 1000', 'wo\x02rd\x0f', 'q\x01r', 'ACTION x', ':lead', 'tab\tx'])
+    payload = rng.choice([t, t, '\x01ACTION ' + t + '\x01', '\x01ACTION ' + t + '\x01'])
+    g['args'] = [rng.choice(['#test', '#test', '#test', 'bob', '@#test']), payload] + (['extra'] if rng.random() < 0.1 else [])
+    g['tags'] = {k: v for k, v in g['tags'].items() if '\0' not in (v or '')}
+    return {'msg': g, 'installed': rng.random() < 0.8, 'k': rng.choice([0, 1, 1, 2, 3])}
+
+
+def case_outfilter(ctx, B, g, mo):
+    inp = dict(g, op='outfilter')
+    ctx.case('outfilter', inp)
+    irc, ircmsgs = B['irc'], B['ircmsgs']
+    cb = filter_cb(B)
+    m0 = g['msg']
+    m = ircmsgs.IrcMsg(prefix=m0['prefix'], command=m0['command'], args=tuple(m0['args']), server_tags=dict(m0['tags']) if m0['tags'] else None)
+    irc._setMsgChannel(m)
+    cb.outFilters.clear()
+    if g['installed']:
+        cb.outFilters['#test'] = [cb.reverse] * g['k']
+    try:
+        out = cb.outFilter(irc, m)
+        ir = impl_line(str(out))
+    finally:
+        cb.outFilters.clear()
+    if mo is not None:
+        mr = dec_line(mo)
+        if mr != ir:
+            ctx.disagree(inp, mr, ir, 'Filter.outFilter')
+
+
+def outfilter_wire(B, g):
+    m0 = g['msg']
+    m = B['ircmsgs'].IrcMsg(prefix=m0['prefix'], command=m0['command'], args=tuple(m0['args']))
+    B['irc']._setMsgChannel(m)
+    cb = filter_cb(B)
+    active = g['installed'] and m.channel is not None and m.channel in {'#test': 1}
+    return [7, [bool(active), g['k'], [wire_tags(m0['tags']), m0['prefix'], m0['command'], m0['args']]]]
+
+
 def case_maker(ctx, B, g, mo):
     inp = {'op': 'maker', 'g': g}
     ctx.case('maker-msg', inp)
@@ -948,6 +1084,21 @@ def run(ctx):
     outs = ctx.model([[5, [wire.opt(l), [wire_tags(g['tags']), g['prefix'], g['command'], g['args']]]] for g, l in gs])
     for (g, l), mo in zip(gs, outs):
         case_take(ctx, B, g, l, mo)
+    # --- Filter.outFilter: model (with the 'reverse' filter) vs implementation
+    gs = [gen_outfilter(rng) for _ in range(ctx.n(600))]
+    for g, mo in zip(gs, ctx.model([outfilter_wire(B, g) for g in gs])):
+        case_outfilter(ctx, B, g, mo)
+    # --- every command of the whitelist Filter._filterCommands as a function text -> text on hostile ONE-LINE inputs
+    cb = filter_cb(B)
+    names = sorted(cb._filterCommands)
+    singles = [chr(i) for i in range(1, 0x300) if chr(i) not in '\r\n']
+    texts = decoder_inputs() + [h for h in HOSTILE if h and not any(c in h for c in '\r\n\0')] + [''.join(singles[i:i + 64]) for i in range(0, len(singles), 64)]
+    for name in names:
+        for t in texts:
+            case_filter_fn(ctx, B, name, t)
+        for ch in singles:
+            case_filter_fn(ctx, B, name, ch, count=False)
+    ctx.notes.append('output-filter whitelist (%d commands) exercised on %d one-line texts and %d single characters each' % (len(names), len(texts), len(singles)))
     # --- live exploration
     _drain(B)
     run_live(ctx)
@@ -968,6 +1119,9 @@ def replay(ctx, inp):
             if clause is None or c == clause:
                 return '%s: %s' % (c, d)
         return None
+    if op == 'filterfn':
+        case_filter_fn(sub, B, inp['filter'], inp['s'])
+        return sub.failures[0]['detail'] if sub.failures else None
     if op == 'safearg':
         case_safearg(sub, B, inp['s'], None)
     elif op == 'ctor':
